@@ -82,7 +82,8 @@ fn check_model(st: &mut Stats, env: &BDDEnv<usize>, uni: &[usize], f: &(D, Tt), 
     st.bump("model_calls");
     let case = || json!({"kind": "model", "f": f.1.hex(), "universe": labels_json(uni), "outside": outside.to_string()});
     util::budget(20_000_000, 1000);
-    let m = match guarded(|| env.model(Rc::clone(&f.0))) {
+    let handed = hand_over(&f.0, st.evals);
+    let m = match guarded(move || env.model(handed)) {
         Ok(m) => m,
         Err(c) => {
             st.violate("c07.panic", format!("C07:model:{}", c.signature()), format!("model({}) did not return: {:?}", short(&f.0), c), case());
@@ -367,6 +368,16 @@ fn cli_job(ctx: &Ctx, job: usize, iters: u64) -> Stats {
     cfg_fix.binder_weight = 30;
     cfg_fix.max_list = 3;
     for it in 0..iters {
+        if it % 10 == 9 {
+            // a quantifier inside a fixed point that reaches its variable only through the fixed-point variable
+            let g = gen::render(&gen::gen_ast(&mut rng, &cfg), &mut rng, Style::Plain);
+            let v = *rng.pick(&["a", "b", "c"]);
+            let (fix, op) = *rng.pick(&[("lfp", "|"), ("gfp", "&"), ("mu", "or"), ("nu", "and")]);
+            let q = *rng.pick(&["exists", "forall", "any", "all"]);
+            let text = format!("{} X # (({}) {} {} {} # X)", fix, g, op, q, v);
+            cli_case(ctx, &mut st, &text);
+            continue;
+        }
         let ast = gen::gen_ast(&mut rng, if it % 3 == 2 { &cfg_fix } else { &cfg });
         // (every other text with alias spellings, comments glued to their neighbours, stray separators)
         let style = if rng.chance(1, 2) { Style::Fancy } else { Style::Plain };
